@@ -181,6 +181,37 @@ def stale_failure_record(sid, timeout_ms=400):
     return s.done()
 
 
+def stale_slow_body(sid, api="error", timeout_ms=400):
+    """a submission for request 2 whose headers (and request id) arrive while request 2 is in flight, but whose body is
+    only completed - by a helper that outlives the runtime - after request 2 timed out, the environment was reset and
+    request 3 was dispatched: it is refused (400) and must not move the new runtime's state"""
+    s = Scn(sid, ext=[], timeout_ms=timeout_ms, opWaitMs=6000)
+    s.meta(family=FAMILY, schedule="stale-slow-body", api=api)
+    s.init()
+    s.await_exec(kind="rt")
+    tags = {"rt": s.poll("rt")}
+    s.round(tags, {})
+    it = s.invoke(size=5, seed=7)
+    s.wait(tags["rt"])
+    s.hold("drv.body:b1", 1)
+    kw = {"errType": "Function.Stale"} if api == "error" else {}
+    post = s.call("rt", api, async_=True, id="current", size=2000, seed=5, headers={"X-Verif-Slow-Body": "b1", "X-Verif-Detached": "1"}, **kw)
+    s.until_held("drv.body:b1")
+    s.wait(it)                      # the invocation times out, reset, the runtime is killed
+    m = s.mark()
+    it3 = s.invoke(size=6, seed=8)
+    s.await_exec(kind="rt", since=m)
+    p3 = s.call("rt", "next", async_=True)
+    s.wait(p3)
+    s.release("drv.body:b1")        # now the rest of the stale body arrives
+    s.wait(post)
+    s.call("rt", "response", id="current", body="own-answer-of-request-3")
+    tags["rt"] = s.poll("rt")
+    s.wait(it3)
+    s.round(tags, {})
+    return s.done()
+
+
 def double_reset(sid, timeout_ms=400):
     s = Scn(sid, ext=[], timeout_ms=timeout_ms, opWaitMs=8000)
     s.meta(family=FAMILY, schedule="double-reset")
@@ -307,6 +338,7 @@ def scenarios(prefix, which=("watch-late-cancel", "clear-vs-invoke", "ghost-invo
           "register-vs-close": register_vs_close,
           "stale-shutdown": stale_shutdown,
           "stale-failure-record": stale_failure_record,
+          "stale-error-slow-body": lambda sid: stale_slow_body(sid, "error"),
           "stale-error-in-flight": lambda sid: stale_in_flight(sid, "error"),
           "stale-response-in-flight": lambda sid: stale_in_flight(sid, "response")}
     for i, w in enumerate(which):
